@@ -231,4 +231,490 @@ theorem mem_erase {α} (s : Scope α) (k : String) (p : String × CState α)
       · simp [h]
       · exact List.mem_cons_of_mem _ (ih h)
 
+/-! ## WHILE IN -/
+
+/-- FETCH NEXT from pointer i (−1 ≤ i < len) returns row i+1 -/
+theorem fetch_next_some {α} (rows : List α) (i : Int) (f : Bool) (hl : LenOK rows)
+    (h0 : -1 ≤ i) (h1 : i + 1 < rows.length) :
+    (CState.opened rows i f).fetch .next = .ok (.opened rows (i + 1) true, rows[(i + 1).toNat]?) := by
+  have hm : moveIndex .next i (recordLen rows) = i + 1 := by
+    unfold LenOK maxI64 at hl
+    simp only [moveIndex]; apply wrap64_of_inI64; unfold inI64 minI64 maxI64; omega
+  rcases fetch_cases rows i f .next _ hm with ⟨h, _⟩ | ⟨_, h, _⟩ | ⟨_, _, h⟩
+  · omega
+  · simp only [recordLen] at h; omega
+  · exact h
+
+theorem fetch_next_none {α} (rows : List α) (i : Int) (f : Bool) (hl : LenOK rows)
+    (h0 : -1 ≤ i) (h1 : i ≤ rows.length) (h2 : (rows.length : Int) ≤ i + 1) :
+    (CState.opened rows i f).fetch .next = .ok (.opened rows rows.length true, none) := by
+  have hm : moveIndex .next i (recordLen rows) = i + 1 := by
+    unfold LenOK maxI64 at hl
+    simp only [moveIndex]; apply wrap64_of_inI64; unfold inI64 minI64 maxI64; omega
+  rcases fetch_cases rows i f .next _ hm with ⟨h, _⟩ | ⟨_, _, h⟩ | ⟨_, h, _⟩
+  · omega
+  · exact h
+  · simp only [recordLen] at h; omega
+
+/-- the loop, without BREAK, from any pointer: sees exactly the rows after the pointer, in order -/
+theorem whileIn_none_general {α} (rows : List α) (hl : LenOK rows) :
+    ∀ (fuel : Nat) (i : Int) (f : Bool) (acc : List α), -1 ≤ i → i ≤ rows.length →
+      rows.length + 2 ≤ fuel + (i + 1).toNat →
+      whileIn fuel none (CState.opened rows i f) acc
+        = .ok (.opened rows rows.length true, acc.reverse ++ rows.drop (i + 1).toNat) := by
+  intro fuel
+  induction fuel with
+  | zero =>
+    intro i f acc h0 h1 hf
+    omega
+  | succ fuel ih =>
+    intro i f acc h0 h1 hf
+    by_cases hlast : (rows.length : Int) ≤ i + 1
+    · simp only [whileIn, fetch_next_none rows i f hl h0 h1 hlast]
+      have : rows.drop (i + 1).toNat = [] := by
+        apply List.drop_eq_nil_of_le; omega
+      simp [this]
+    · have hlt : i + 1 < rows.length := by omega
+      have hget : rows[(i + 1).toNat]? = some (rows[(i + 1).toNat]'(by omega)) := by
+        simp
+      simp only [whileIn, fetch_next_some rows i f hl h0 hlt, hget]
+      rw [ih (i + 1) true _ (by omega) (by omega) (by omega)]
+      have hd : rows.drop (i + 1).toNat = rows[(i + 1).toNat]'(by omega) :: rows.drop ((i + 1).toNat + 1) := by
+        simp
+      have he : (i + 1 + 1).toNat = (i + 1).toNat + 1 := by omega
+      rw [hd, he]
+      simp
+
+/-- the loop with BREAK in the k-th iteration (k ≥ 1) -/
+theorem whileIn_break_general {α} (rows : List α) (hl : LenOK rows) :
+    ∀ (fuel k : Nat) (i : Int) (f : Bool) (acc : List α), 1 ≤ k → -1 ≤ i → i ≤ rows.length →
+      rows.length + 2 ≤ fuel + (i + 1).toNat →
+      whileIn fuel (some k) (CState.opened rows i f) acc
+        = .ok (.opened rows (if i + k < rows.length then i + k else rows.length) true,
+               acc.reverse ++ (rows.drop (i + 1).toNat).take k) := by
+  intro fuel
+  induction fuel with
+  | zero =>
+    intro k i f acc hk h0 h1 hf
+    omega
+  | succ fuel ih =>
+    intro k i f acc hk h0 h1 hf
+    by_cases hlast : (rows.length : Int) ≤ i + 1
+    · simp only [whileIn, fetch_next_none rows i f hl h0 h1 hlast]
+      have : rows.drop (i + 1).toNat = [] := by
+        apply List.drop_eq_nil_of_le; omega
+      have hif : ¬ (i + (k : Int) < rows.length) := by omega
+      simp [this, hif]
+    · have hlt : i + 1 < rows.length := by omega
+      have hget : rows[(i + 1).toNat]? = some (rows[(i + 1).toNat]'(by omega)) := by
+        simp
+      have hd : rows.drop (i + 1).toNat = rows[(i + 1).toNat]'(by omega) :: rows.drop ((i + 1).toNat + 1) := by
+        simp
+      match k, hk with
+      | 1, _ =>
+        simp only [whileIn, fetch_next_some rows i f hl h0 hlt, hget]
+        have hif : i + ((1 : Nat) : Int) < rows.length := by omega
+        rw [hd, List.take_succ_cons, List.take_zero, if_pos hif]
+        simp
+      | k' + 2, _ =>
+        simp only [whileIn, fetch_next_some rows i f hl h0 hlt, hget]
+        rw [ih (k' + 1) (i + 1) true _ (by omega) (by omega) (by omega) (by omega)]
+        have he : (i + 1 + 1).toNat = (i + 1).toNat + 1 := by omega
+        have hi : i + 1 + ((k' + 1 : Nat) : Int) = i + ((k' + 2 : Nat) : Int) := by omega
+        rw [he, hi]
+        conv => rhs; rw [hd, List.take_succ_cons]
+        simp
+
+/-! ## invariants over histories -/
+
+theorem fetch_opened_inv {α} (rows : List α) (index : Int) (f : Bool) (p : Pos)
+    (c' : CState α) (r : Option α) (h : (CState.opened rows index f).fetch p = .ok (c', r)) : PtrInv c' := by
+  rcases fetch_cases rows index f p _ rfl with ⟨_, h'⟩ | ⟨_, _, h'⟩ | ⟨h0, h1, h'⟩
+  all_goals
+    rw [h'] at h
+    simp only [Except.ok.injEq, Prod.mk.injEq] at h
+    obtain ⟨rfl, _⟩ := h
+    simp only [PtrInv, recordLen] at *
+    omega
+
+theorem fetch_inv {α} (c c' : CState α) (p : Pos) (r : Option α) (h : c.fetch p = .ok (c', r)) : PtrInv c' := by
+  cases c with
+  | closed => simp [CState.fetch] at h
+  | opened rows i f => exact fetch_opened_inv rows i f p c' r h
+
+theorem whileIn_inv {α} : ∀ (fuel : Nat) (brk : Option Nat) (c c' : CState α) (acc seen : List α),
+    PtrInv c → whileIn fuel brk c acc = .ok (c', seen) → PtrInv c' := by
+  intro fuel
+  induction fuel with
+  | zero =>
+    intro brk c c' acc seen hc h
+    simp only [whileIn, Except.ok.injEq, Prod.mk.injEq] at h
+    rw [← h.1]; exact hc
+  | succ fuel ih =>
+    intro brk c c' acc seen hc h
+    unfold whileIn at h
+    split at h
+    · cases h
+    · rename_i c1 hf
+      simp only [Except.ok.injEq, Prod.mk.injEq] at h
+      rw [← h.1]; exact fetch_inv _ _ _ _ hf
+    · rename_i c1 r hf
+      have hc1 := fetch_inv _ _ _ _ hf
+      split at h
+      · simp only [Except.ok.injEq, Prod.mk.injEq] at h
+        rw [← h.1]; exact hc1
+      · exact ih _ _ _ _ _ hc1 h
+      · exact ih _ _ _ _ _ hc1 h
+
+theorem scopeInv_update {α} (s : Scope α) (k : String) (c : CState α) (hs : ScopeInv s) (hc : PtrInv c) :
+    ScopeInv (update s k c) := by
+  intro p hp
+  rcases mem_update s k c p hp with h | h
+  · exact hs p h
+  · rw [h]; exact hc
+
+theorem step_inv {α} (s : Scope α) (op : Op α) (hs : ScopeInv s) : ScopeInv (step s op).1 := by
+  cases op <;> simp only [step]
+  case declare n =>
+    split
+    · exact hs
+    · intro p hp
+      simp only [List.mem_cons] at hp
+      rcases hp with rfl | hp
+      · trivial
+      · exact hs p hp
+  case dispose n =>
+    split
+    · intro p hp; exact hs p (mem_erase _ _ _ hp)
+    · exact hs
+  case «open» n rows =>
+    split
+    · exact hs
+    · rename_i c hl
+      cases c with
+      | closed =>
+        simp only [CState.open]
+        apply scopeInv_update _ _ _ hs
+        simp [PtrInv]
+      | opened r i f => simp only [CState.open]; exact hs
+  case close n =>
+    split
+    · exact hs
+    · exact scopeInv_update _ _ _ hs (by simp [CState.close, PtrInv])
+  case fetch n p =>
+    split
+    · exact hs
+    · split
+      · exact hs
+      · rename_i hf; exact scopeInv_update _ _ _ hs (fetch_inv _ _ _ _ hf)
+      · rename_i hf; exact scopeInv_update _ _ _ hs (fetch_inv _ _ _ _ hf)
+  case fetchBad n => exact hs
+  case isOpen n => split <;> exact hs
+  case isInRange n =>
+    split
+    · exact hs
+    · split <;> exact hs
+  case count n =>
+    split
+    · exact hs
+    · split <;> exact hs
+  case whileIn n brk =>
+    split
+    · exact hs
+    · rename_i c hl
+      split
+      · exact hs
+      · rename_i hw
+        exact scopeInv_update _ _ _ hs (whileIn_inv _ _ _ _ _ _ (hs _ (lookup_mem _ _ _ hl)) hw)
+  case dml => exact hs
+
+theorem run_inv {α} (ops : List (Op α)) : ∀ (s : Scope α), ScopeInv s → ScopeInv (run s ops).1 := by
+  induction ops with
+  | nil => intro s hs; exact hs
+  | cons op rest ih =>
+    intro s hs
+    simp only [run]
+    exact ih _ (step_inv s op hs)
+
+
+/-! ## the view of an open cursor stays in place -/
+
+theorem fetch_keeps_rows {α} (rows : List α) (i : Int) (f : Bool) (p : Pos) (c' : CState α) (r : Option α)
+    (h : (CState.opened rows i f).fetch p = .ok (c', r)) :
+    (∃ i', c' = .opened rows i' true) ∧ (∀ x, r = some x → x ∈ rows) := by
+  rcases fetch_cases rows i f p _ rfl with ⟨h0, h'⟩ | ⟨h0, h1, h'⟩ | ⟨h0, h1, h'⟩
+  all_goals
+    rw [h'] at h
+    simp only [Except.ok.injEq, Prod.mk.injEq] at h
+    obtain ⟨rfl, rfl⟩ := h
+  · exact ⟨⟨_, rfl⟩, by simp⟩
+  · exact ⟨⟨_, rfl⟩, by simp⟩
+  · refine ⟨⟨_, rfl⟩, ?_⟩
+    intro x hx
+    exact List.mem_of_getElem? hx
+
+theorem whileIn_keeps_rows {α} (rows : List α) : ∀ (fuel : Nat) (brk : Option Nat) (i : Int) (f : Bool) (acc seen : List α)
+    (c' : CState α), whileIn fuel brk (CState.opened rows i f) acc = .ok (c', seen) →
+    (∃ i' f', c' = .opened rows i' f') ∧ (∀ x ∈ seen, x ∈ acc ∨ x ∈ rows) := by
+  intro fuel
+  induction fuel with
+  | zero =>
+    intro brk i f acc seen c' h
+    simp only [whileIn, Except.ok.injEq, Prod.mk.injEq] at h
+    obtain ⟨rfl, rfl⟩ := h
+    exact ⟨⟨_, _, rfl⟩, by intro x hx; left; simpa using hx⟩
+  | succ fuel ih =>
+    intro brk i f acc seen c' h
+    unfold whileIn at h
+    split at h
+    · cases h
+    · rename_i c1 hf
+      simp only [Except.ok.injEq, Prod.mk.injEq] at h
+      obtain ⟨rfl, rfl⟩ := h
+      obtain ⟨⟨i', rfl⟩, _⟩ := fetch_keeps_rows rows i f .next _ _ hf
+      exact ⟨⟨_, _, rfl⟩, by intro x hx; left; simpa using hx⟩
+    · rename_i c1 r hf
+      obtain ⟨⟨i', rfl⟩, hr⟩ := fetch_keeps_rows rows i f .next _ _ hf
+      have hr := hr r rfl
+      split at h
+      · simp only [Except.ok.injEq, Prod.mk.injEq] at h
+        obtain ⟨rfl, rfl⟩ := h
+        refine ⟨⟨_, _, rfl⟩, ?_⟩
+        intro x hx
+        simp only [List.reverse_cons, List.mem_append, List.mem_reverse, List.mem_singleton] at hx
+        rcases hx with hx | hx
+        · left; exact hx
+        · right; rw [hx]; exact hr
+      all_goals
+        obtain ⟨h1, h2⟩ := ih _ _ _ _ _ _ h
+        refine ⟨h1, ?_⟩
+        intro x hx
+        rcases h2 x hx with hx | hx
+        · simp only [List.mem_cons] at hx
+          rcases hx with hx | hx
+          · right; rw [hx]; exact hr
+          · left; exact hx
+        · right; exact hx
+
+/-- one statement that neither closes nor disposes cursor `k` leaves its view (the OPEN-time rows) in place -/
+theorem step_keeps_view {α} (s : Scope α) (op : Op α) (k : String) (rows : List α) (i : Int) (f : Bool)
+    (h : lookup s k = some (.opened rows i f)) (hd : ¬ op.discards k) :
+    ∃ i' f', lookup (step s op).1 k = some (.opened rows i' f') := by
+  have same : ∃ i' f', lookup s k = some (.opened rows i' f') := ⟨i, f, h⟩
+  have upd : ∀ (n : String) (c0 c' : CState α), lookup s (key n) = some c0 →
+      (key n = k → ∃ i' f', c' = .opened rows i' f') →
+      ∃ i' f', lookup (update s (key n) c') k = some (.opened rows i' f') := by
+    intro n c0 c' hl hc
+    by_cases hk : key n = k
+    · obtain ⟨i', f', rfl⟩ := hc hk
+      rw [← hk]
+      exact ⟨i', f', lookup_update_same _ _ _ (by simp [hl])⟩
+    · rw [lookup_update_ne _ _ _ _ hk]; exact same
+  cases op <;> simp only [step]
+  case declare n =>
+    split
+    · exact same
+    · rename_i hn
+      have hk : key n ≠ k := by intro hk; rw [hk, h] at hn; cases hn
+      simp only [lookup, hk, if_false]; exact same
+  case dispose n =>
+    have hk : key n ≠ k := by simpa [Op.discards] using hd
+    split
+    · rw [lookup_erase_ne _ _ _ hk]; exact same
+    · exact same
+  case «open» n rows' =>
+    split
+    · exact same
+    · rename_i c hl
+      cases c with
+      | opened r i0 f0 => simp only [CState.open]; exact same
+      | closed =>
+        simp only [CState.open]
+        apply upd n _ _ hl
+        intro hk; rw [hk, h] at hl; cases hl
+  case close n =>
+    have hk : key n ≠ k := by simpa [Op.discards] using hd
+    split
+    · exact same
+    · rw [lookup_update_ne _ _ _ _ hk]; exact same
+  case fetch n p =>
+    split
+    · exact same
+    · rename_i c hl
+      split
+      · exact same
+      all_goals
+        rename_i hf
+        apply upd n _ _ hl
+        intro hk
+        rw [hk, h] at hl
+        injection hl with hl
+        subst hl
+        obtain ⟨⟨i', rfl⟩, _⟩ := fetch_keeps_rows _ _ _ _ _ _ hf
+        exact ⟨_, _, rfl⟩
+  case fetchBad n => exact same
+  case isOpen n => split <;> exact same
+  case isInRange n =>
+    split
+    · exact same
+    · split <;> exact same
+  case count n =>
+    split
+    · exact same
+    · split <;> exact same
+  case whileIn n brk =>
+    split
+    · exact same
+    · rename_i c hl
+      split
+      · exact same
+      · rename_i hw
+        apply upd n _ _ hl
+        intro hk
+        rw [hk, h] at hl
+        injection hl with hl
+        subst hl
+        exact (whileIn_keeps_rows _ _ _ _ _ _ _ _ hw).1
+  case dml => exact same
+
+/-- what a statement on cursor `k` returns comes from the rows `k` was opened with -/
+theorem step_result_from_view {α} (s : Scope α) (op : Op α) (rows : List α) (i : Int) (f : Bool)
+    (n : String) (h : lookup s (key n) = some (.opened rows i f)) :
+    (∀ p x, op = .fetch n p → (step s op).2 = .row x → x ∈ rows) ∧
+    (∀ brk seen, op = .whileIn n brk → (step s op).2 = .rows seen → ∀ x ∈ seen, x ∈ rows) := by
+  constructor
+  · intro p x hop hr
+    subst hop
+    simp only [step, h] at hr
+    split at hr
+    · cases hr
+    · rename_i c' r hf
+      injection hr with hr
+      subst hr
+      exact (fetch_keeps_rows _ _ _ _ _ _ hf).2 _ rfl
+    · cases hr
+  · intro brk seen hop hr
+    subst hop
+    simp only [step, h] at hr
+    split at hr
+    · cases hr
+    · rename_i c' seen' hw
+      injection hr with hr
+      subst hr
+      intro x hx
+      rcases (whileIn_keeps_rows _ _ _ _ _ _ _ _ hw).2 x hx with h | h
+      · cases h
+      · exact h
+
+def Op.names {α} (n : String) : Op α → Prop
+  | .dispose m | .open m _ | .close m | .fetch m _ | .isOpen m | .isInRange m | .count m | .whileIn m _ => m = n
+  | _ => False
+
+
+/-! unique keys -/
+def Uniq {α} (s : Scope α) : Prop := (s.map Prod.fst).Nodup
+
+theorem lookup_none_of_not_mem {α} (s : Scope α) (k : String) (h : k ∉ s.map Prod.fst) : lookup s k = none := by
+  induction s with
+  | nil => rfl
+  | cons hd t ih =>
+    obtain ⟨k', c'⟩ := hd
+    simp only [List.map_cons, List.mem_cons, not_or] at h
+    have : k' ≠ k := fun e => h.1 e.symm
+    simp [lookup, this, ih h.2]
+
+theorem not_mem_of_lookup_none {α} (s : Scope α) (k : String) (h : lookup s k = none) : k ∉ s.map Prod.fst := by
+  induction s with
+  | nil => simp
+  | cons hd t ih =>
+    obtain ⟨k', c'⟩ := hd
+    by_cases hk : k' = k
+    · simp [lookup, hk] at h
+    · simp only [lookup, hk, if_false] at h
+      simp only [List.map_cons, List.mem_cons, not_or]
+      exact ⟨fun e => hk e.symm, ih h⟩
+
+theorem keys_update {α} (s : Scope α) (k : String) (c : CState α) :
+    (update s k c).map Prod.fst = s.map Prod.fst := by
+  induction s with
+  | nil => rfl
+  | cons hd t ih =>
+    obtain ⟨k', c'⟩ := hd
+    by_cases hk : k' = k <;> simp [update, hk, ih]
+
+theorem keys_erase_sub {α} (s : Scope α) (k : String) :
+    ((erase s k).map Prod.fst).Sublist (s.map Prod.fst) := by
+  induction s with
+  | nil => simp [erase]
+  | cons hd t ih =>
+    obtain ⟨k', c'⟩ := hd
+    by_cases hk : k' = k
+    · simp [erase, hk]
+    · simp [erase, hk, ih]
+
+theorem erase_removes {α} (s : Scope α) (k : String) (h : Uniq s) : lookup (erase s k) k = none := by
+  induction s with
+  | nil => rfl
+  | cons hd t ih =>
+    obtain ⟨k', c'⟩ := hd
+    simp only [Uniq, List.map_cons, List.nodup_cons] at h
+    by_cases hk : k' = k
+    · subst hk
+      simp only [erase, if_true]
+      exact lookup_none_of_not_mem _ _ h.1
+    · simp only [erase, hk, if_false, lookup]
+      exact ih h.2
+
+theorem step_uniq {α} (s : Scope α) (op : Op α) (h : Uniq s) : Uniq (step s op).1 := by
+  cases op <;> simp only [step]
+  case declare n =>
+    split
+    · exact h
+    · rename_i hn
+      simp only [Uniq, List.map_cons, List.nodup_cons]
+      exact ⟨not_mem_of_lookup_none _ _ hn, h⟩
+  case dispose n =>
+    split
+    · exact List.Nodup.sublist (keys_erase_sub _ _) h
+    · exact h
+  case «open» n rows =>
+    split
+    · exact h
+    · split
+      · exact h
+      · simp only [Uniq, keys_update]; exact h
+  case close n =>
+    split
+    · exact h
+    · simp only [Uniq, keys_update]; exact h
+  case fetch n p =>
+    split
+    · exact h
+    · split
+      · exact h
+      all_goals simp only [Uniq, keys_update]; exact h
+  case fetchBad n => exact h
+  case isOpen n => split <;> exact h
+  case isInRange n =>
+    split
+    · exact h
+    · split <;> exact h
+  case count n =>
+    split
+    · exact h
+    · split <;> exact h
+  case whileIn n brk =>
+    split
+    · exact h
+    · split
+      · exact h
+      · simp only [Uniq, keys_update]; exact h
+  case dml => exact h
+
+theorem run_uniq {α} (ops : List (Op α)) : ∀ (s : Scope α), Uniq s → Uniq (run s ops).1 := by
+  induction ops with
+  | nil => intro s hs; exact hs
+  | cons op rest ih => intro s hs; simp only [run]; exact ih _ (step_uniq s op hs)
+
+
 end Csvq.Cursor
